@@ -5,7 +5,7 @@
 //   ensures   answerable ==> exactly one response was published on the reply subject
 //   ensures   the function does not panic
 // over a script of handler behaviours (the cases of the callback contract: reply once, reply
-// twice, return without reply, panic with any kind of value before or after replying).
+// twice, return without reply, panic with any kind of value - including nil - before or after replying).
 package res
 
 import (
@@ -46,6 +46,8 @@ func TestVerifReplay(t *testing.T) {
 		{"panic-string", func(r *Request) { panic("boom") }},
 		{"panic-error", func(r *Request) { panic(errors.New("boom")) }},
 		{"panic-int", func(r *Request) { panic(42) }},
+		{"panic-nil", func(r *Request) { panic(nil) }}, // recover() returns nil for it when the main module declares go < 1.21 (go-res: go 1.18)
+		{"reply-then-panic-nil", func(r *Request) { r.reply(responseSuccess); panic(nil) }},
 		{"panic-resError", func(r *Request) { panic(ErrNotFound) }},
 		{"panic-typed-nil-resError", func(r *Request) { panic((*Error)(nil)) }},
 		{"reply-then-panic-string", func(r *Request) { r.reply(responseSuccess); panic("boom") }},
